@@ -42,6 +42,17 @@ func c16Lost(n, s int, ins bool, p, L int) int {
 }
 
 func c16Gen(g *core.Gen) {
+	// every 97th scenario also runs through the exported API on a real directory, from another working directory and
+	// with the index path spelled absolutely / relatively (diskTwinP2): where the slices are looked for must not depend
+	// on how the index file was named
+	nEmit := 0
+	emit := func(c *p2Case) {
+		nEmit++
+		if nEmit%97 == 0 && c.PriorGen == 0 {
+			c.DiskTwin = true
+		}
+		g.Emit(c)
+	}
 	ss := []int{4, 8, 12, 16}
 	if g.Thorough() {
 		ss = []int{4, 8, 12, 16, 20, 32, 48}
@@ -77,7 +88,7 @@ func c16Gen(g *core.Gen) {
 								continue
 							}
 							// verify with all blocks present, and repair with exactly `lost` blocks left
-							g.Emit(&p2Case{Cfg: cfg, Dmg: []scen.Dmg{op}, G: 1, AutoPrune: true, Extra: []string{"c16"}})
+							emit(&p2Case{Cfg: cfg, Dmg: []scen.Dmg{op}, G: 1, AutoPrune: true, Extra: []string{"c16"}})
 						}
 					}
 				}
@@ -98,9 +109,9 @@ func c16Gen(g *core.Gen) {
 				n := cfg.Sizes[f]
 				for p := 0; p <= n; p++ {
 					for _, L := range []int{1, s} {
-						g.Emit(&p2Case{Cfg: cfg, Dmg: []scen.Dmg{{Op: "ins", F: f, At: p, N: L}}, G: 1, AutoPrune: true, Extra: []string{"c16"}})
+						emit(&p2Case{Cfg: cfg, Dmg: []scen.Dmg{{Op: "ins", F: f, At: p, N: L}}, G: 1, AutoPrune: true, Extra: []string{"c16"}})
 						if p+L <= n && L < n {
-							g.Emit(&p2Case{Cfg: cfg, Dmg: []scen.Dmg{{Op: "cut", F: f, At: p, N: L}}, G: 1, AutoPrune: true, Extra: []string{"c16"}})
+							emit(&p2Case{Cfg: cfg, Dmg: []scen.Dmg{{Op: "cut", F: f, At: p, N: L}}, G: 1, AutoPrune: true, Extra: []string{"c16"}})
 						}
 					}
 				}
@@ -112,7 +123,7 @@ func c16Gen(g *core.Gen) {
 	for _, n := range []int{258, 300} {
 		cfg := scen.P2Config{Sizes: []int{8*n + 3, 20}, Slice: 8, Blocks: 7, Class: "crclow16"}
 		for _, op := range []scen.Dmg{{Op: "ins", F: 0, At: 0, N: 1}, {Op: "ins", F: 0, At: 3, N: 5}, {Op: "cut", F: 0, At: 0, N: 1}, {Op: "cut", F: 0, At: 2, N: 9}, {Op: "ins", F: 0, At: 8 * 100, N: 3}} {
-			g.Emit(&p2Case{Cfg: cfg, Dmg: []scen.Dmg{op}, G: 1, AutoPrune: true, Extra: []string{"c16"}})
+			emit(&p2Case{Cfg: cfg, Dmg: []scen.Dmg{op}, G: 1, AutoPrune: true, Extra: []string{"c16"}})
 		}
 	}
 	// slices carrying the boundary values of the 32-bit checksum field (0, 1, 0xffffffff, 0x80000000, ...), displaced by
@@ -121,14 +132,14 @@ func c16Gen(g *core.Gen) {
 		for f := range cfg.Sizes {
 			for at := 0; at <= 2*cfg.Slice; at++ {
 				for n := 1; n <= cfg.Slice+1; n++ {
-					g.Emit(&p2Case{Cfg: cfg, Dmg: []scen.Dmg{{Op: "ins", F: f, At: at, N: n}}, G: 1, AutoPrune: true, Extra: []string{"c16"}})
-					g.Emit(&p2Case{Cfg: cfg, Dmg: []scen.Dmg{{Op: "cut", F: f, At: at, N: n}}, G: 1, AutoPrune: true, Extra: []string{"c16"}})
+					emit(&p2Case{Cfg: cfg, Dmg: []scen.Dmg{{Op: "ins", F: f, At: at, N: n}}, G: 1, AutoPrune: true, Extra: []string{"c16"}})
+					emit(&p2Case{Cfg: cfg, Dmg: []scen.Dmg{{Op: "cut", F: f, At: at, N: n}}, G: 1, AutoPrune: true, Extra: []string{"c16"}})
 				}
 			}
 		}
 	}
 	// the same displaced-slice search right after another generation of the set (same ids, other content) was decoded in this process
-	genGenerationCases(func(c *p2Case) { c.Extra = []string{"c16"}; g.Emit(c) }, true)
+	genGenerationCases(func(c *p2Case) { c.Extra = []string{"c16"}; emit(c) }, true)
 	// slice sizes at and around powers of two up to 64 KiB (rolling-CRC tables are built per window length): a 5-slice
 	// file, insert / delete at a few positions, second file present
 	bigS := []int{2000, 4096, 16384, 32764, 32768, 32772, 65536}
@@ -148,7 +159,7 @@ func c16Gen(g *core.Gen) {
 					if ins {
 						op = scen.Dmg{Op: "ins", F: 0, At: p, N: L}
 					}
-					g.Emit(&p2Case{Cfg: cfg, Dmg: []scen.Dmg{op}, G: 2, AutoPrune: true, Extra: []string{"c16"}})
+					emit(&p2Case{Cfg: cfg, Dmg: []scen.Dmg{op}, G: 2, AutoPrune: true, Extra: []string{"c16"}})
 				}
 			}
 		}
@@ -162,11 +173,11 @@ func c16Gen(g *core.Gen) {
 					continue
 				}
 				if f < h {
-					g.Emit(&p2Case{Cfg: cfg, Dmg: []scen.Dmg{{Op: "swap", F: f, G: h}}, AutoPrune: true, Extra: []string{"c16"}})
+					emit(&p2Case{Cfg: cfg, Dmg: []scen.Dmg{{Op: "swap", F: f, G: h}}, AutoPrune: true, Extra: []string{"c16"}})
 				}
 				// rename f to h's name (h's content is lost): exactly h's slices need blocks
-				g.Emit(&p2Case{Cfg: cfg, Dmg: []scen.Dmg{{Op: "copy", F: f, G: h}, {Op: "del", F: f}}, AutoPrune: true, Extra: []string{"c16"}})
-				g.Emit(&p2Case{Cfg: cfg, Dmg: []scen.Dmg{{Op: "copy", F: f, G: h}}, AutoPrune: true, Extra: []string{"c16"}})
+				emit(&p2Case{Cfg: cfg, Dmg: []scen.Dmg{{Op: "copy", F: f, G: h}, {Op: "del", F: f}}, AutoPrune: true, Extra: []string{"c16"}})
+				emit(&p2Case{Cfg: cfg, Dmg: []scen.Dmg{{Op: "copy", F: f, G: h}}, AutoPrune: true, Extra: []string{"c16"}})
 			}
 		}
 	}
